@@ -768,6 +768,29 @@ def slice_from(vm, m, callee, args):
     return Ref(Cell(Seq(s.items[start:], 'slice')))
 
 
+@native(r' as Iterator>::(find|any|all)::<', 'Iterator::find / any / all over a concrete-length stream (predicate evaluated on every element up to the first hit; one fork per outcome)')
+def it_find_any_all(vm, m, callee, args):
+    kind = re.search(r'Iterator>::(find|any|all)::<', callee).group(1)
+    items, pan = it_items(vm, m, args[0])
+    if any(is_concrete_bool(c) is not True for c, _ in items):
+        raise Unsupported('%s over a filtered stream' % kind)
+    preds = []
+    for _, x in items:
+        v, p = call_closure(vm, m, args[1], [as_ref(x)] if kind == 'find' else [x])
+        preds.append(bool_(v) if kind != 'all' else Not(bool_(v)))
+    alts = []
+    for k in range(len(preds) + 1):
+        cond = And([Not(preds[i]) for i in range(k)] + ([preds[k]] if k < len(preds) else []))
+        if kind == 'find':
+            val = (lambda m2, a2, k=k: some(items[k][1]) if k < len(items) else NONE())
+        elif kind == 'any':
+            val = (lambda m2, a2, k=k: BoolVal(k < len(items)))
+        else:
+            val = (lambda m2, a2, k=k: BoolVal(not (k < len(items))))
+        alts.append((cond, val))
+    raise NativeFork(alts)
+
+
 @native(r' as Iterator>::count$', 'Iterator::count')
 def it_count(vm, m, callee, args):
     def cnt(items):
